@@ -501,6 +501,8 @@ pub trait Ops {
     fn emplace(&self, off: usize, bytes: &[u8], spec: &Spec) -> String;
     fn assign(&self, off: usize, bytes: &[u8], spec: &Spec) -> String;
     fn default(&self, off: usize, bytes: &[u8]) -> String;
+    /// IO suite (`io_suite.rs`): `kind` is recv / send / arecv / asend / sys
+    fn io(&self, kind: &str, args: &[&str]) -> String;
 }
 
 pub struct TypeOps<T: ?Sized>(pub core::marker::PhantomData<fn(&T)>);
@@ -707,5 +709,8 @@ where
             Some(r) => after_emplace::<T>(a, r),
             None => "no-default".into(),
         })
+    }
+    fn io(&self, kind: &str, args: &[&str]) -> String {
+        crate::io_suite::run_io::<T>(kind, args)
     }
 }
